@@ -425,4 +425,26 @@ theorem fair_of_run (hf : FairRun c run ls) : Fair c (fun i => ⟨run i, obs run
 
 end run
 
+/-- all of it, for a plain run of `fire` -/
+theorem progress_run {c : Cfg} (hc : c.busy < c.cap) (B : Nat → Nat) {run : Nat → St} {ls : Nat → Option Label}
+    (hr : IsRun c run ls) (hf : FairRun c run ls) (hnq : ∀ i, (run i).quit = false)
+    (hbud : ∀ i t, (obs run ls i).used t ≤ B t) :
+    (∀ i, ∃ j, i ≤ j ∧ (obs run ls i).annB ≤ (obs run ls j).procB) ∧
+    (∀ i, ∃ j, i ≤ j ∧ (obs run ls i).annT ≤ (obs run ls j).procT) ∧
+    (∀ i k, k < (obs run ls i).next → ∃ j, i ≤ j ∧ k ∈ (obs run ls j).fin) ∧
+    (∀ i, (obs run ls i).lost = [] ∧
+      ∀ k, k < (obs run ls i).next → Pend k (obs run ls i) ∨ k ∈ (obs run ls i).fin) := by
+  have he := exec_of_run hr
+  have hfx := fair_of_run hf
+  have hx := exec_xinv hc he
+  have ha : ∀ i, Amb c B (⟨run i, obs run ls i⟩ : XSt) := fun i => ⟨hx i, hnq i, hbud i⟩
+  refine ⟨blocks_live he ha hfx, txs_live he ha hfx, accepted_live hc he ha hfx, ?_⟩
+  intro i
+  refine ⟨(hx i).lost, fun k hk => ?_⟩
+  rcases (hx i).acc k hk with h | h | h | h
+  · exact Or.inl h
+  · exact Or.inr h
+  · rw [(hx i).ab (hnq i)] at h; cases h
+  · rw [(hx i).lost] at h; cases h
+
 end MW.Lemmas.ProtoLive
